@@ -1130,5 +1130,9 @@ func (p *Parser) requireInt() (int64, error) {
 		return 0, err
 	}
 	val, err := p.Prev().Val()
-	return val.(int64), err
+	if err != nil {
+		// e.g. an integer literal that does not fit 64 bits
+		return 0, err
+	}
+	return val.(int64), nil
 }
